@@ -16,7 +16,7 @@ import glob, importlib.util, json, os, re, sys
 
 ROOT = os.path.abspath(os.path.join(os.path.dirname(__file__), "..", ".."))
 REPO = os.environ.get("VERIF_REPO", "/repo")
-OUT = os.path.join(ROOT, "coq", "theories", "gen")
+OUT = os.environ.get("VERIF_GEN_OUT") or os.path.join(ROOT, "coq", "theories", "gen")
 
 
 def go_int(expr):
